@@ -14,7 +14,7 @@ RULE = ("parseable files from the C03 grammar generator with arbitrary (mostly w
 ASSUMPTIONS = ["regex is_match is an oracle (regex crate)", "the shell is scripted through AsyncDB::run_command",
                "representability premise as in DESIGN.md section 4/C06"]
 
-KNOWN_IDS = {3: "D3", 4: "D4", 5: "D5", 6: "D6", 12: "D12"}
+KNOWN_IDS = {5: "D5", 12: "D12"}
 
 
 def corpus():
